@@ -1272,6 +1272,152 @@ fn run_buffer(ctx: &Ctx, b: &Buf, max_on_type: usize) -> BufOut {
     }
 }
 
+
+// ------------------------------------------------------------------------------------------------
+// histories: the buffer is what the client holds now, whatever the server has seen before
+
+const HISTORIES: [&str; 9] = [
+    "open(A) change(B)",
+    "open(A) close open(B)",
+    "disk=A open(other) disk:=B open(B)",
+    "disk=A open(other) open(B)",
+    "disk=B open(other) open(B)",
+    "open(A) formatting change(B)",
+    "disk=A open(A) disk:=B change(B)",
+    "open(B) change(A) change(B)",
+    "disk=A open(other) disk:=B open(B) close open(B)",
+];
+
+/// Plays history `h` (the client ends up holding `b` in main.asm); `Err` = the server died.
+fn play_history(s: &mut Server, h: usize, a: &str, b: &str) -> Result<(), Death> {
+    let disk = root().join("main.asm");
+    let _ = std::fs::remove_file(&disk);
+    let other = "// nothing\n";
+    match h {
+        0 => {
+            s.did_open("main.asm", a);
+            s.did_change("main.asm", b);
+        }
+        1 => {
+            s.did_open("main.asm", a);
+            s.did_close("main.asm");
+            s.did_open("main.asm", b);
+        }
+        2 | 8 => {
+            std::fs::write(&disk, a).unwrap();
+            s.did_open("other.asm", other);
+            s.sync()?;
+            std::fs::write(&disk, b).unwrap();
+            s.did_open("main.asm", b);
+            if h == 8 {
+                s.did_close("main.asm");
+                s.did_open("main.asm", b);
+            }
+        }
+        3 => {
+            std::fs::write(&disk, a).unwrap();
+            s.did_open("other.asm", other);
+            s.did_open("main.asm", b);
+        }
+        4 => {
+            std::fs::write(&disk, b).unwrap();
+            s.did_open("other.asm", other);
+            s.did_open("main.asm", b);
+        }
+        5 => {
+            s.did_open("main.asm", a);
+            let _ = s.request("textDocument/formatting", json!({"textDocument": {"uri": uri("main.asm")}, "options": {"tabSize": 4, "insertSpaces": true}}))?;
+            s.did_change("main.asm", b);
+        }
+        6 => {
+            std::fs::write(&disk, a).unwrap();
+            s.did_open("main.asm", a);
+            s.sync()?;
+            std::fs::write(&disk, b).unwrap();
+            s.did_change("main.asm", b);
+        }
+        _ => {
+            s.did_open("main.asm", b);
+            s.did_change("main.asm", a);
+            s.did_change("main.asm", b);
+        }
+    }
+    s.sync()
+}
+
+/// Sequential (the servers of this process share one working directory, and these histories put files into it).
+fn run_histories(ctx: &Ctx, texts: &[(String, String, String)]) {
+    let disk = root().join("main.asm");
+    let mut sessions = 0u64;
+    for (ai, (_, a, _)) in texts.iter().enumerate() {
+        for (bi, (bname, b, expected)) in texts.iter().enumerate() {
+            if ai == bi {
+                continue;
+            }
+            for (h, hname) in HISTORIES.iter().enumerate() {
+                sessions += 1;
+                let case = || json!({"program": bname, "family": "history", "variant": hname, "history": h, "earlier": a, "files": {"main.asm": b}, "target": "main.asm", "request": "formatting"});
+                ctx.eval(case);
+                ctx.count(&format!("history_sessions:{}", hname));
+                let mut server = Server::start();
+                let answer = play_history(&mut server, h, a, b).and_then(|_| {
+                    send(
+                        &mut server,
+                        "main.asm",
+                        &Req {
+                            kind: "formatting",
+                            pos: None,
+                        },
+                    )
+                });
+                drop(server);
+                let _ = std::fs::remove_file(&disk);
+                let v = match answer {
+                    Ok(v) => v,
+                    Err(d) => {
+                        ctx.count("history_answers_server_died_(no_verdict)");
+                        ctx.note(format!("server died in history {} for {}: {:?}", hname, show(b), d));
+                        continue;
+                    }
+                };
+                if v.is_null() || v.get("__error").is_some() {
+                    ctx.count("history_answers_null_(no_verdict)");
+                    continue;
+                }
+                let edits = match parse_edits(&v) {
+                    Ok(e) => e,
+                    Err(_) => continue,
+                };
+                if edits.is_empty() {
+                    ctx.count(if expected == b { "history_answers_empty_for_already_formatted_text" } else { "history_answers_empty_for_a_buffer_not_yet_formatted_(counted,_no_verdict)" });
+                    continue;
+                }
+                ctx.count("history_answers_with_edits");
+                ctx.nontrivial(fnv_str(&format!("history\u{1}{}\u{1}{}\u{1}{}", h, a, b)));
+                let j = judge(b, expected, &edits);
+                if !j.violated.is_empty() {
+                    ctx.finding(Finding::new(
+                        format!("edits:{}:after-history:{}", j.violated[0], hname.replace(' ', "_")),
+                        format!(
+                            "formatting after the history [{}] (A = {}): {} edits for the buffer {}; violated: {}; {}; formatter text {}",
+                            hname,
+                            show(a),
+                            j.n_edits,
+                            show(b),
+                            j.violated.join(","),
+                            j.what,
+                            show(expected)
+                        ),
+                        case(),
+                    ));
+                }
+            }
+        }
+    }
+    ctx.set("history_sessions", json!(sessions));
+    ctx.set("history_texts", json!(texts.len()));
+}
+
 // ------------------------------------------------------------------------------------------------
 // the real binary: `mos format` writes what the in-process formatter returns
 
@@ -1433,7 +1579,16 @@ fn replay_case(ctx: &Ctx, case: &Value) -> i32 {
         req
     };
     let mut server = Server::start();
-    if let Err(d) = open_all(&mut server, &b) {
+    let opened = match case["history"].as_u64() {
+        Some(h) => {
+            println!("history [{}] with A = {:?}", HISTORIES[h as usize % HISTORIES.len()], case["earlier"].as_str().unwrap_or(""));
+            let r = play_history(&mut server, h as usize, case["earlier"].as_str().unwrap_or(""), &text);
+            let _ = std::fs::remove_file(root().join("main.asm"));
+            r
+        }
+        None => open_all(&mut server, &b),
+    };
+    if let Err(d) = opened {
         println!("server died while opening the documents: {:?}", d);
         return 0;
     }
@@ -1564,6 +1719,27 @@ pub fn run(ctx: &Ctx, replay: Option<&Value>) -> i32 {
     ctx.set("buffers_distinct_round2_formatter_outputs", json!(round2.len()));
     let _outs2: Vec<BufOut> = round2.par_iter().map(|b| run_buffer(ctx, b, max_on_type)).collect();
     ctx.set("wall_s_after_round2", json!(ctx.wall()));
+
+    // round 3: the same request after different histories of the server (single-file buffers: the rendered base
+    // programs and the formatter's text for them)
+    {
+        let want = if thorough { 7 } else { 3 };
+        let mut texts: Vec<(String, String, String)> = vec![];
+        let mut progs_seen: HashSet<String> = HashSet::new();
+        for (b, o) in round1.iter().zip(outs.iter()) {
+            if b.family != "plain" || b.files.len() != 1 || !o.reference_ok {
+                continue;
+            }
+            if let Some(f) = &o.formatted {
+                if progs_seen.len() < want && progs_seen.insert(b.prog.clone()) {
+                    texts.push((b.prog.clone(), b.text().to_string(), f.clone()));
+                    texts.push((format!("format({})", b.prog), f.clone(), f.clone()));
+                }
+            }
+        }
+        run_histories(ctx, &texts);
+        ctx.set("wall_s_after_round3", json!(ctx.wall()));
+    }
 
     // real binary
     let ok_bufs: Vec<&Buf> = round1
